@@ -1,8 +1,79 @@
 (* C12 — EBP codec: decode is exact, re-encode is byte-identical, built EBPs encode/decode, time survives to 1 ns.
    This file holds only the property statements; proofs live in Proofs/Ebp*.v.
    Model: Model/Ebp.v (ebp/*.go with the repairs of F3 and of the CableLabs grouping loop); Spec: Spec/EbpSpec.v. *)
-From Gots Require Import Base.Prelude Model.Ebp Spec.EbpSpec Proofs.EbpTime Proofs.EbpSync.
-Import Ebp.
+From Gots Require Import Base.Prelude Model.Ebp Spec.EbpSpec Proofs.EbpTime Proofs.EbpSync Proofs.EbpDecode Proofs.EbpReencode.
+Import Ebp EbpSpec.
+
+(* ---- decode is exact: the readers (code as it is, g = false) invert the Spec serialisers, for every well-formed logical
+   EBP (any flag combination, SAP, grouping chain, time, reserved tail), whatever follows the EBP in the buffer.
+   decoded_* is the object with exactly the encoded fields; the *_getters theorems spell out what each getter reports. ---- *)
+Theorem C12_decode_ser_comcast : forall (c : comcast) (rest : bytes), wf_comcast c ->
+  ReadEncoderBoundaryPoint false (ser_comcast c ++ rest) = Ok (Comcast, decoded_comcast c).
+Proof. exact read_ebp_comcast. Qed.
+Print Assumptions C12_decode_ser_comcast.
+
+Theorem C12_decode_ser_cablelabs : forall (c : cablelabs) (rest : bytes), wf_cablelabs c ->
+  ReadEncoderBoundaryPoint false (ser_cablelabs c ++ rest) = Ok (CableLabs, decoded_cablelabs c).
+Proof. exact read_ebp_cablelabs. Qed.
+Print Assumptions C12_decode_ser_cablelabs.
+
+Theorem C12_decoded_comcast_getters : forall c : comcast, wf_comcast c ->
+  let e := decoded_comcast c in
+  EBPType e = 169 /\ IsEmpty e = false /\ DataFieldLength e = len (ser_comcast_body c)
+  /\ FragmentFlag e = c_fragment c /\ SegmentFlag e = c_segment c /\ DiscontinuityFlag e = c_discontinuity c
+  /\ ExtensionFlag e = is_some (c_ext c) /\ SapFlag e = is_some (c_sap c) /\ GroupingFlag e = is_some (c_group c)
+  /\ TimeFlag e = is_some (c_time c)
+  /\ ExtensionFlags e = val0 (c_ext c) /\ Sap e = val0 (c_sap c) /\ Grouping e = opt_byte (c_group c)
+  /\ TimeSeconds e = fst (tval (c_time c)) /\ TimeFraction e = snd (tval (c_time c))
+  /\ EBPTime e = ntp_ns (fst (tval (c_time c))) (snd (tval (c_time c)))
+  /\ ReservedBytes e = c_tail c
+  /\ StreamSyncSignal e = sync_of (opt_byte (c_group c)).
+Proof. exact decoded_comcast_getters. Qed.
+Print Assumptions C12_decoded_comcast_getters.
+
+Theorem C12_decoded_cablelabs_getters : forall c : cablelabs, wf_cablelabs c ->
+  let e := decoded_cablelabs c in
+  EBPType e = 223 /\ IsEmpty e = false /\ DataFieldLength e = len (ser_cablelabs_body c)
+  /\ FormatIdentifier e = l_format c
+  /\ FragmentFlag e = l_fragment c /\ SegmentFlag e = l_segment c /\ ConcealmentFlag e = l_concealment c
+  /\ ExtensionFlag e = is_some (l_ext c) /\ SapFlag e = is_some (l_sap c) /\ GroupingFlag e = is_some (l_groups c)
+  /\ TimeFlag e = is_some (l_time c) /\ PartitionFlag e = is_some (part_opt (l_ext c))
+  /\ ExtensionFlags e = val0 (ext_opt (l_ext c)) /\ PartitionFlags e = val0 (part_opt (l_ext c))
+  /\ Sap e = val0 (l_sap c) /\ Grouping e = groups_list (l_groups c)
+  /\ TimeSeconds e = fst (tval (l_time c)) /\ TimeFraction e = snd (tval (l_time c))
+  /\ EBPTime e = ntp_ns (fst (tval (l_time c))) (snd (tval (l_time c)))
+  /\ ReservedBytes e = l_tail c
+  /\ StreamSyncSignal e = sync_of (groups_list (l_groups c)).
+Proof. exact decoded_cablelabs_getters. Qed.
+Print Assumptions C12_decoded_cablelabs_getters.
+
+(* ---- re-encode is byte-identical: wf b -> Data (decode b) = b (and Data leaves the object as it was) ---- *)
+Theorem C12_reencode_comcast : forall c : comcast, wf_comcast c -> exists e,
+  ReadEncoderBoundaryPoint false (ser_comcast c) = Ok (Comcast, e) /\ Data Comcast e = (ser_comcast c, e).
+Proof. exact reencode_comcast_bytes. Qed.
+Print Assumptions C12_reencode_comcast.
+
+Theorem C12_reencode_cablelabs : forall c : cablelabs, wf_cablelabs c -> exists e,
+  ReadEncoderBoundaryPoint false (ser_cablelabs c) = Ok (CableLabs, e) /\ Data CableLabs e = (ser_cablelabs c, e).
+Proof. exact reencode_cablelabs_bytes. Qed.
+Print Assumptions C12_reencode_cablelabs.
+
+(* the length bound 253 in wf_* is exact: at 254 the uint8 test `index < DataFieldLength+2` wraps, the reserved bytes
+   are dropped and the object re-encodes to 3 bytes (a 256-byte input) *)
+Theorem C12_reencode_254_refuted :
+  len (ser_comcast_body c254) = 254 /\ is_bytes (c_tail c254) /\
+  exists e, ReadEncoderBoundaryPoint false (ser_comcast c254) = Ok (Comcast, e) /\ fst (Data Comcast e) = [169; 1; 128].
+Proof. exact reencode_254_refuted. Qed.
+Print Assumptions C12_reencode_254_refuted.
+
+(* non-vacuity: a populated EBP of each flavour meets the hypotheses *)
+Example C12_wf_comcast_example :
+  wf_comcast (mkC true false true false (Some 255) (Some 3) (Some 29) (Some (4294967295, 2147483648)) [1; 2; 255]).
+Proof. unfold wf_comcast. cbn. repeat split; try lia. repeat constructor. Qed.
+Example C12_wf_cablelabs_example :
+  wf_cablelabs (mkL true true false true 1161973808 (Some (5, Some 255)) (Some 2) (Some (28, [29; 127; 0]))
+                    (Some (2147483648, 4294967295)) [9; 8]).
+Proof. unfold wf_cablelabs. cbn. repeat split; try lia. all: repeat constructor; lia. Qed.
 
 (* ---- time: every instant of the representable range 1968-01-20T03:14:08Z .. 2104-02-26T09:42:24Z (ns since 1900) ---- *)
 Theorem C12_time_roundtrip : forall (e : t) (tm : Z),
